@@ -34,10 +34,13 @@ func IsSafeTrustedResourceURLPrefix(prefix string) bool {
 	return safeTrustedResourceURLPrefixPattern.MatchString(prefix)
 }
 
-var safeTrustedResourceURLPrefixPattern = regexp.MustCompile(`(?i)^(?:` +
-	`(?:https:)?//[0-9a-z.:\[\]-]+/|` +
+// The letters are matched case-insensitively with explicit ASCII classes rather than
+// with the (?i) flag: Unicode simple case folding would also accept U+017F (LATIN SMALL
+// LETTER LONG S) for 's' and U+212A (KELVIN SIGN) for 'k', in the scheme and in <origin>.
+var safeTrustedResourceURLPrefixPattern = regexp.MustCompile(`^(?:` +
+	`(?:[hH][tT][tT][pP][sS]:)?//[0-9a-zA-Z.:\[\]-]+/|` +
 	`/[^/\\]|` +
-	`about:blank#)`)
+	`[aA][bB][oO][uU][tT]:[bB][lL][aA][nN][kK]#)`)
 
 // URLContainsDoubleDotSegment returns whether the given URL or URL substring
 // contains the double dot-segment ".." (RFC3986 3.3) in its percent-encoded or
